@@ -10,9 +10,10 @@ SNIPS = {1: '\\n{q}', 2: '\\begin{w}u\\end{w}', 3: '{g}', 4: '$m$', 5: '\\a{x}',
 DONOR7 = '\\begin{itemize}\\item \\w{\\n{q}}\\end{itemize}'      # snippet 7 is copied out of an argument inside an item of this document
 OBS_NAMES = ['a', 'n', 'q', 'w', 'zz', 'item', 'e', 'kk*', '\\begin{e}', '\\begin{zz}', '\\end{zz}', '\\end{e}', '\\begin{itemize}']
 ALL_KINDS = ['args_swap', 'args_del', 'delete', 'replace_with', 'replace', 'remove', 'insert', 'append', 'rename', 'set_string', 'args_append', 'args_pop',
-             'args_reverse', 'args_slice', 'args_insert', 'args_remove', 'args_clear']
+             'args_reverse', 'args_slice', 'args_insert', 'args_remove', 'args_clear', 'args_set', 'args_delslice']
 STRUCT = ['delete', 'replace_with', 'replace', 'remove', 'insert', 'append']
-PARTS = ['args_swap', 'args_del', 'rename', 'set_string', 'args_append', 'args_pop', 'args_reverse', 'args_slice', 'args_insert', 'args_remove', 'args_clear']
+PARTS = ['args_swap', 'args_del', 'rename', 'set_string', 'args_append', 'args_pop', 'args_reverse', 'args_slice', 'args_insert', 'args_remove', 'args_clear',
+         'args_set', 'args_delslice']
 
 
 def mat_tla(ms):
@@ -120,7 +121,11 @@ def apply_op(soup, op):
             w.string = from_atoms(op['s'])
         elif k == 'args_append':
             kind = from_atoms(op['s'])
-            w.args.append('{z}' if kind == '{' else '[z]')
+            w.args.append({'{': '{z}', '[': '[z]', '{{': '{{z}}'}[kind])
+        elif k == 'args_set':
+            w.args[op['i']] = {'{': '{z}', '{{': '{{z}}'}[from_atoms(op['s'])]
+        elif k == 'args_delslice':
+            del w.args[op['i']:int(from_atoms(op['s']))]
         elif k == 'args_insert':
             w.args.insert(op['i'], '{z}')
         elif k == 'args_pop':
@@ -231,7 +236,7 @@ def show_op(op):
         o['path'] = op['path']
     if op.get('ppath'):
         o['ppath'] = op['ppath']
-    if op['k'] in ('insert', 'args_insert', 'args_pop', 'args_remove', 'args_slice'):
+    if op['k'] in ('insert', 'args_insert', 'args_pop', 'args_remove', 'args_slice', 'args_set', 'args_delslice', 'args_del', 'args_swap'):
         o['i'] = op['i']
     if op.get('nm'):
         o['name'] = from_atoms(op['nm'])
@@ -318,7 +323,17 @@ def random_history(rng, src, length, kinds):
                 if k == 'args_append':
                     if na >= 4:
                         continue
-                    op['s'] = [rng.choice(['{', '['])]
+                    op['s'] = rng.choice([['{'], ['['], ['{', '{']])
+                elif k == 'args_set':
+                    if na == 0:
+                        continue
+                    op['i'] = rng.randrange(na)
+                    op['s'] = rng.choice([['{'], ['{', '{']])
+                elif k == 'args_delslice':
+                    if na < 2:
+                        continue
+                    op['i'] = rng.randint(0, 1)
+                    op['s'] = to_atoms(str(rng.randint(op['i'] + 1, na)))
                 elif k == 'args_insert':
                     if na >= 4:
                         continue
